@@ -55,6 +55,7 @@ func checkC11(ctx *Ctx, r *Report, tier string) {
 		}
 	}
 	r.Counts["writer_implementers"] = nW
+	ruleBufferStartsFresh(ctx, r)
 	r.floor("B1", 2*4+2*3)
 	r.floor("B2", 4)
 	r.expectControl("B1", "verifCtlBuffer")
@@ -212,7 +213,7 @@ func ruleSaveNeverDeclines(ctx *Ctx, r *Report) {
 // error value is left out).
 func goodSuccs(b *ssa.BasicBlock) []*ssa.BasicBlock {
 	succs := b.Succs
-	if iff, ok := b.Instrs[len(b.Instrs)-1].(*ssa.If); ok && len(succs) == 2 && isErrorCond(iff.Cond) {
+	if iff, ok := b.Instrs[len(b.Instrs)-1].(*ssa.If); ok && len(succs) == 2 && isErrorCond(iff.Cond) && isIOError(iff.Cond) {
 		switch iff.Cond.(*ssa.BinOp).Op {
 		case token.NEQ:
 			succs = succs[1:]
@@ -1206,6 +1207,163 @@ func asCall(x ssa.Instruction) *ssa.Call {
 }
 
 // isErrorCond: v is a comparison of an error-typed value with nil.
+// ruleBufferStartsFresh (B8): a buffering writer starts with storage of its own. Write appends
+// into the buffer it holds; if the constructor hands every new writer the same package-level
+// slice ("allocate the empty start buffer once"), the first fill of two writers alive at the
+// same time lands in one backing array: each delivers the other's items. Every slice stored into
+// a freshly allocated writer is made there (make, a literal, nil) - not loaded from a global.
+func ruleBufferStartsFresh(ctx *Ctx, r *Report) {
+	n := 0
+	for _, in := range []string{"Triangle3Writer", "Line2Writer"} {
+		iface := lookupIface(ctx, "sdf", in)
+		if iface == nil {
+			continue
+		}
+		for _, t := range implementersOf(ctx, iface) {
+			elem := derefType(t)
+			for _, fn := range ctx.srcFuncs("sdf") {
+				if len(fn.Blocks) == 0 {
+					continue
+				}
+				fn := fn
+				allInstrs(fn, func(_ *ssa.BasicBlock, ins ssa.Instruction) {
+					al, ok := ins.(*ssa.Alloc)
+					if !ok || !al.Heap || !types.Identical(derefType(al.Type()), elem) || al.Referrers() == nil {
+						return
+					}
+					for _, ref := range *al.Referrers() {
+						fa, ok := ref.(*ssa.FieldAddr)
+						if !ok || fa.Referrers() == nil {
+							continue
+						}
+						if _, isSl := derefType(fa.Type()).Underlying().(*types.Slice); !isSl {
+							continue
+						}
+						for _, r2 := range *fa.Referrers() {
+							st, ok := r2.(*ssa.Store)
+							if !ok || st.Addr != ssa.Value(fa) {
+								continue
+							}
+							n++
+							fresh := !sliceFromGlobal(st.Val, 0)
+							r.check("B8", fmt.Sprintf("%s|%s|buffer-starts-with-storage-of-its-own", shortFn(fn), typeShort(t)), st.Pos(), fresh,
+								"the slice a new writer starts with is not the value of a package-level variable; found "+st.Val.String())
+						}
+					}
+				})
+			}
+		}
+	}
+	if n == 0 {
+		r.undecided("B8", "writer constructors", 0, "no constructor storing a buffer found")
+	}
+	r.floor("B8", 1)
+}
+
+// sliceFromGlobal: v is (a re-slice of) the value of a package-level variable, possibly handed
+// through module helpers that return it.
+func sliceFromGlobal(v ssa.Value, depth int) bool {
+	if depth > 4 {
+		return false
+	}
+	switch x := v.(type) {
+	case *ssa.UnOp:
+		if x.Op == token.MUL {
+			if _, ok := x.X.(*ssa.Global); ok {
+				return true
+			}
+		}
+	case *ssa.Slice:
+		return sliceFromGlobal(x.X, depth+1)
+	case *ssa.Phi:
+		for _, e := range x.Edges {
+			if sliceFromGlobal(e, depth+1) {
+				return true
+			}
+		}
+	case *ssa.Call:
+		if g := x.Call.StaticCallee(); g != nil && inModule(g) && len(g.Blocks) > 0 {
+			found := false
+			allInstrs(g, func(_ *ssa.BasicBlock, ins ssa.Instruction) {
+				if ret, ok := ins.(*ssa.Return); ok {
+					for _, rv := range ret.Results {
+						if sliceFromGlobal(rv, depth+1) {
+							found = true
+						}
+					}
+				}
+			})
+			return found
+		}
+	}
+	return false
+}
+
+// isIOError: the error tested by cond comes from input/output (or from a module function, which
+// may wrap some), not from a judgement on the content: a sink that gives up because a third-party
+// validator dislikes the model leaves an empty file and tells nobody. Output calls are those of
+// os, io, bufio, encoding/*, archive/*, compress/*, and methods named like one (Encode, Save,
+// SaveAs, Flush, Close, Write, Seek, Sync, End).
+func isIOError(cond ssa.Value) bool {
+	bo, ok := cond.(*ssa.BinOp)
+	if !ok {
+		return true
+	}
+	e := bo.X
+	if k, isC := e.(*ssa.Const); isC && k.IsNil() {
+		e = bo.Y
+	}
+	ioNames := map[string]bool{"Encode": true, "Save": true, "SaveAs": true, "Flush": true, "Close": true, "Write": true, "Seek": true, "Sync": true, "End": true, "WriteString": true, "WriteTo": true, "Truncate": true}
+	seen := map[ssa.Value]bool{}
+	var src func(v ssa.Value, depth int) bool
+	src = func(v ssa.Value, depth int) bool {
+		if v == nil || seen[v] || depth > 8 {
+			return true
+		}
+		seen[v] = true
+		switch x := v.(type) {
+		case *ssa.Extract:
+			return src(x.Tuple, depth+1)
+		case *ssa.Phi:
+			for _, ed := range x.Edges {
+				if !src(ed, depth+1) {
+					return false
+				}
+			}
+			return true
+		case *ssa.UnOp:
+			if x.Op == token.MUL {
+				// an error variable in a cell: every value stored into it
+				if x.X != nil && x.X.Referrers() != nil {
+					for _, ref := range *x.X.Referrers() {
+						if st, ok := ref.(*ssa.Store); ok && st.Addr == x.X {
+							if !src(st.Val, depth+1) {
+								return false
+							}
+						}
+					}
+				}
+			}
+			return true
+		case *ssa.Call:
+			if x.Call.IsInvoke() {
+				return ioNames[x.Call.Method.Name()] || x.Call.Method.Pkg() == nil
+			}
+			g := x.Call.StaticCallee()
+			if g == nil || g.Pkg == nil || inModule(g) {
+				return true
+			}
+			path := g.Pkg.Pkg.Path()
+			if path == "os" || path == "io" || path == "bufio" || strings.HasPrefix(path, "encoding/") || strings.HasPrefix(path, "archive/") || strings.HasPrefix(path, "compress/") {
+				return true
+			}
+			return ioNames[g.Name()]
+		}
+		return true
+	}
+	return src(e, 0)
+}
+
 func isErrorCond(v ssa.Value) bool {
 	bo, ok := v.(*ssa.BinOp)
 	if !ok || (bo.Op != token.NEQ && bo.Op != token.EQL) {
